@@ -18,7 +18,7 @@
 (*   raised       the call raised an exception (then no result fields)     *)
 (*   steps        (api "zoom_history") the steps made on ONE mask object   *)
 (***************************************************************************)
-EXTENDS ZoomHistory, IOUtils
+EXTENDS MaskHistory, IOUtils
 
 Trace == JsonDeserialize(IOEnv.TRACE_FILE)
 
@@ -182,6 +182,60 @@ HistClass(r) ==
                THEN ":edited-after-first-use"
                ELSE IF edits # {} THEN ":edited-before-first-use" ELSE ":unedited"
 
+\* ---- a masking history on one imaging dataset: ds.apply_mask(a1).apply_mask(a2)... ---------------------------------
+\* r.h x r.w is the ORIGINAL frame, r.gin_y / r.gin_x the coordinates of all its pixels as the unmasked dataset reports
+\* them, r.steps[k] = the mask given at step k (m: unmasked linear indices on the original frame) and what came back.
+\* Every step is judged exactly like a single automatic padding (AutoPadClauses) of the ORIGINAL data under its own
+\* mask: earlier masks, and an earlier padding, must have left no trace.
+MHistWellFormed(r) ==
+    /\ Len(r.gin_y) = r.h * r.w /\ Len(r.gin_x) = r.h * r.w
+    /\ r.steps # << >>
+    /\ \A k \in DOMAIN r.steps :
+          /\ r.steps[k].m # << >>
+          /\ \A j \in DOMAIN r.steps[k].m : r.steps[k].m[j] >= 0 /\ r.steps[k].m[j] < r.h * r.w
+\* step k seen as a single-call record against the original dataset
+AsSingleCall(r, k) ==
+    LET st == r.steps[k]
+    IN [h |-> r.h, w |-> r.w, u |-> st.m, lat_ok |-> r.lat_ok, payload_ok |-> st.payload_ok,
+        pre_y |-> [j \in DOMAIN st.m |-> r.gin_y[st.m[j] + 1]],
+        pre_x |-> [j \in DOMAIN st.m |-> r.gin_x[st.m[j] + 1]],
+        post_y |-> st.post_y, post_x |-> st.post_x, post_d |-> st.post_d, post_n |-> st.post_n,
+        oh |-> st.oh, ow |-> st.ow, src_d |-> st.src_d, src_n |-> st.src_n, um |-> st.um]
+MHistStepFailures(r, k) ==
+    IF r.steps[k].raised THEN << "apply-mask-returns-a-result" >>
+    ELSE LET f == SelectSeq(AutoPadClauses(AsSingleCall(r, k)), LAMBDA c : ~ c.ok)
+         IN [j \in DOMAIN f |-> f[j].n]
+MHistBadSteps(r) == { k \in DOMAIN r.steps : MHistStepFailures(r, k) # << >> }
+MaskHistoryClauses(r) ==
+    IF ~ MHistWellFormed(r) THEN << Cl("driver-mask-history-well-formed", FALSE) >>
+    ELSE LET names == { "coordinates-on-lattice", "same-number-of-unmasked-pixels",
+                        "coordinate-data-noise-triples-unchanged",
+                        "padded-frame-is-centred-embedding-of-masked-data-and-noise", "payload-independent",
+                        "apply-mask-returns-a-result" }
+             failing == UNION { ToSet(MHistStepFailures(r, k)) : k \in DOMAIN r.steps }
+         IN << Cl("every-mask-of-the-history-returns-a-result", "apply-mask-returns-a-result" \notin failing),
+               Cl("every-step-shows-the-original-coordinate-data-noise-triples-of-its-own-mask",
+                  /\ "coordinate-data-noise-triples-unchanged" \notin failing
+                  /\ "same-number-of-unmasked-pixels" \notin failing),
+               Cl("every-step-frame-is-centred-embedding-of-the-original-data-and-noise-under-its-own-mask",
+                  "padded-frame-is-centred-embedding-of-masked-data-and-noise" \notin failing),
+               Cl("coordinates-on-lattice", "coordinates-on-lattice" \notin failing),
+               Cl("payload-independent", "payload-independent" \notin failing),
+               Cl("no-unnamed-failure", failing \subseteq names) >>
+
+\* class of the first rejected step: how does its mask relate to the previous one, and was the previous result padded?
+MHistClass(r) ==
+    IF ~ MHistWellFormed(r) \/ MHistBadSteps(r) = {} THEN ""
+    ELSE LET k == MinOfSet(MHistBadSteps(r))
+             st == r.steps[k]
+         IN (IF st.raised THEN ":raised" ELSE "") \o
+            (IF k = 1 THEN ":first-mask"
+             ELSE LET a == ToSet(st.m)
+                      p == ToSet(r.steps[k-1].m)
+                      pu == { CellOf(x, r.w) : x \in p }
+                  IN (IF a \ p # {} THEN ":unmasks-pixels-the-previous-mask-hid" ELSE ":within-previous-mask") \o
+                     (IF FootLeaves(pu, r.h, r.w, r.kh, r.kw) THEN ":previous-padded" ELSE ":previous-not-padded"))
+
 OddKernel(r) == r.kh % 2 = 1 /\ r.kw % 2 = 1 /\ r.kh >= 1 /\ r.kw >= 1
 
 \* an exception of the code under test on an input inside the property's domain is a rejection
@@ -217,6 +271,7 @@ Clauses(r) ==
            ELSE DatasetTrimClauses(r)
       [] r.api = "zoom" -> ZoomClauses(r)
       [] r.api = "zoom_history" -> HistoryClauses(r)
+      [] r.api = "mask_history" -> IF ~ OddKernel(r) THEN << Cl("driver-odd-kernel", FALSE) >> ELSE MaskHistoryClauses(r)
       [] OTHER -> << Cl("unknown-api", FALSE) >>
 
 \* ---- what the specification wanted (for the replay file) ----------------------------------------------
@@ -245,6 +300,14 @@ Want(r) ==
                                           ELSE LET U == MaskAfter(Un(r), r.steps, k - 1, r.w)
                                                IN [shape |-> CodeZoomShape(U, r.steps[k].b),
                                                    src |-> CodeZoomSrc(r.h, r.w, U, r.steps[k].b)]]]
+      [] r.api = "mask_history" ->
+           IF r.raised \/ ~ MHistWellFormed(r) THEN << >>
+           ELSE [rejected_steps |-> MHistBadSteps(r),
+                 failures |-> [k \in DOMAIN r.steps |-> MHistStepFailures(r, k)],
+                 spec_result |-> [k \in DOMAIN r.steps |->
+                                    LET a == { CellOf(r.steps[k].m[j], r.w) : j \in DOMAIN r.steps[k].m }
+                                        m == MaskedFromOriginal(r.h, r.w, a, r.kh, r.kw)
+                                    IN [shape |-> << m.h, m.w >>, src |-> m.src]]]
       [] OTHER -> << >>
 
 \* ---- signature of the failing input class (used to match known findings) -------------------------------
@@ -261,6 +324,7 @@ Sig(r) ==
            r.api \o (IF FootLeaves(Un(r), r.h, r.w, r.kh, r.kw) THEN ":leaves" ELSE ":fits") \o Ker(r) \o Geo(r)
       [] r.api = "zoom" -> r.api \o (IF TouchesFrame(r) THEN ":touches-frame" ELSE ":interior") \o ":b" \o ToString(r.b)
       [] r.api = "zoom_history" -> r.api \o (IF r.raised THEN ":raised" ELSE HistClass(r))
+      [] r.api = "mask_history" -> r.api \o (IF r.raised THEN ":raised" ELSE MHistClass(r)) \o Ker(r) \o Geo(r)
       [] OTHER -> r.api
 
 Failed(r) == SelectSeq(Clauses(r), LAMBDA c : ~ c.ok)
